@@ -206,10 +206,16 @@ class GrandCanonical(
 
     def save_state(self) -> None:
         """Save the current state of the context and update move labels."""
+        notified: set[int] = set()
+
         for move_storage in self.moves.values():
-            move_storage.move.on_atoms_changed(
-                self.context._added_indices, self.context._deleted_indices
-            )
+            move = move_storage.move
+
+            if id(move) not in notified:
+                notified.add(id(move))
+                move.on_atoms_changed(
+                    self.context._added_indices, self.context._deleted_indices
+                )
 
         super().save_state()
 
